@@ -140,6 +140,7 @@ func (c18) Plan(tier string, seed int64) []mon.Workload {
 		{Name: "programs", N: n},
 		{Name: "scope", N: int64(len(c18Loops) * len(c18Exits) * len(c18Wraps) * len(c18Tails)), Exhaustive: true},
 		{Name: "map-iteration", N: n / 10},
+		{Name: "slice-copy", N: int64(len(c18SliceForms) * len(c18SliceWrites)), Exhaustive: true},
 	}
 }
 
@@ -179,6 +180,28 @@ func c18Scope(i int64) []*gt.T {
 	return gt.CloneStmts(l)
 }
 
+// slice-copy (exhaustive): a slice of a list is a new list. Every slice
+// spelling x a write through the slice or through the source afterwards; both
+// are printed, and the whole thing is repeated in a loop on a snapshot.
+var c18SliceForms = []string{"[1:3]", "[:2]", "[:]", "[0:4:1]", "[::1]", "[::2]", "[::-1]", "[-3:]", "[1:]", "[0:4]", "[:-1]", "[2:2]", "[3:1:-1]"}
+var c18SliceWrites = []string{"y[0] = 99", "y[-1] = 98", "x[0] = 97", "x[1] += 10", "x[-1] = [96]", "y[0] += 1\nx[2] = nil",
+	"for i = 0; i < 2; i = i + 1 {\n  s = x[:]\n  x[i] = 50 + i\n  p(s)\n}", "z = y[:]\nz[0] = 95\ny[-1] = 94"}
+
+func c18SliceCopy(i int64) []*gt.T {
+	form := c18SliceForms[int(i)%len(c18SliceForms)]
+	write := c18SliceWrites[int(i)/len(c18SliceForms)]
+	text := "x = [1, 2, 3, 4]\ny = x" + form + "\nz = []\np(x, y)\nif len(y) > 0 {\n" + write + "\n}\np(x, y, z)\n"
+	o := drive.Parse("slice-copy", text)
+	if o.Err != nil {
+		panic("c18: slice-copy program does not parse: " + text + ": " + o.Err.Error())
+	}
+	l, err := gt.FromStmts(o.Stmts)
+	if err != nil {
+		panic(err)
+	}
+	return gt.CloneStmts(l)
+}
+
 type c18Case struct {
 	Stmts []*gt.T
 	Cell  string
@@ -205,6 +228,9 @@ func (c18) build(c *mon.Ctx, workload string, i int64) c18Case {
 	}
 	if workload == "scope" {
 		return c18Case{Stmts: c18Scope(i), Cell: ""}
+	}
+	if workload == "slice-copy" {
+		return c18Case{Stmts: c18SliceCopy(i), Cell: ""}
 	}
 	g := gen.NewProg(c.R)
 	g.V2 = true
